@@ -195,7 +195,9 @@ func runC04OpeningSeat(c *Ctx, ea *engineAnchors, eg *EventGraph) {
 				}
 				if hitExit == "" {
 					bad = append(bad, "the preflop walk has no exit on the candidate holding the big blind")
-				} else if hasCond(ps, func(v *Val) bool { return v.K == KAtom && v.At.Op == "b" && strings.HasSuffix(v.At.L, "exit→"+hitExit) }) {
+				} else if hasCond(ps, func(v *Val) bool {
+					return v.K == KAtom && v.At.Op == "b" && strings.HasSuffix(v.At.L, "exit→"+hitExit)
+				}) {
 					// after the hit the candidate is made current (inside the loop's exit block or right after)
 					var first *Event
 					for _, e := range ps.Events[li+1 : em] {
